@@ -1285,6 +1285,8 @@ class Engine:
                 L = E
             else:
                 raise Undecided('for-loop iterable %s' % ast.unparse(node.iter))
+            if isinstance(node.iter, ast.Name) and node.iter.id in set(_assigned_names(node.body)):
+                raise Undecided('for loop #%d changes the container it iterates over (%s)' % (ordinal, node.iter.id))
             if spec.index is None:
                 raise Undecided('for loop #%d needs an index name in its LoopSpec' % ordinal)
             st.env[spec.index] = z3.IntVal(0)
@@ -2299,6 +2301,12 @@ class Engine:
         return SList(ln, z3.Lambda([i], z3.Select(cont.arr, i + lo)), cont.et)
 
     def ev_GeneratorExp(self, node, st):
+        try:
+            return self._ev_GeneratorExp(node, st)
+        except Fork:
+            raise Undecided('generator expression with a call model of several outcomes inside it (a generator is evaluated lazily, by its consumer)')
+
+    def _ev_GeneratorExp(self, node, st):
         """a generator over a LITERAL list/tuple whose filters are decided concretely per element on the current path
         (e.g. `c for c in [a, b] if c is not None` with a, b each either None or a number): the tuple of kept elements"""
         if len(node.generators) != 1 or node.generators[0].is_async or not isinstance(node.generators[0].iter, (ast.List, ast.Tuple)):
@@ -2309,6 +2317,7 @@ class Engine:
             v = self.ev(e, st)
             s2 = st.fork()
             self.assign(g.target, v, s2)
+            before = dict(s2.env)
             keep = True
             for cnd in g.ifs:
                 t = z3.simplify(self.truthy(self.ev(cnd, s2)))
@@ -2320,7 +2329,34 @@ class Engine:
                 raise Undecided('generator filter not decided on this path: %s' % ast.unparse(cnd))
             if keep:
                 out.append(self.ev(node.elt, s2))
+            for k_, v_ in s2.env.items():
+                if not (k_ in before and (v_ is before[k_] or _same_value(v_, before[k_]))):
+                    raise Undecided('generator expression changes %r (effects of call models inside it are not carried over; a generator is also evaluated lazily)' % k_)
+            for fact in s2.pc[len(st.pc):]:
+                st.assume(fact)
         return tuple(out)
+
+    def _elementwise(self, fn, s2, i, n, what):
+        """evaluate fn() once for the arbitrary element number i (0 <= i < n) of a comprehension / generator: sound only if the
+        evaluation has no effect on the state and does not raise or split the path - otherwise refused"""
+        if i is not None:
+            s2.assume(z3.And(i >= 0, i < n))
+        before = dict(s2.env)
+        was = getattr(self, 'in_spec', False)
+        self.in_spec = True
+        try:
+            v = fn()
+        except Fork:
+            raise Undecided('%s: a call model with several outcomes inside it' % what)
+        except PyRaise as r:
+            raise Undecided('%s raises %s' % (what, r.exc))
+        finally:
+            self.in_spec = was
+        for k_, v_ in s2.env.items():
+            if k_ in before and (v_ is before[k_] or _same_value(v_, before[k_])):
+                continue
+            raise Undecided('%s changes %r (an effect of a call model would be applied once instead of once per element)' % (what, k_))
+        return v
 
     def ev_ListComp(self, node, st):
         if len(node.generators) != 1 or node.generators[0].ifs or node.generators[0].is_async:
@@ -2334,12 +2370,7 @@ class Engine:
         i = z3.Int(fresh_name('comp_i'))
         s2 = st.fork()
         self.assign(g.target, from_z3(z3.Select(it.arr, i), it.et), s2)
-        was = getattr(self, 'in_spec', False)
-        self.in_spec = True
-        try:
-            v = self.ev(node.elt, s2)
-        finally:
-            self.in_spec = was
+        v = self._elementwise(lambda: self.ev(node.elt, s2), s2, i, it.len, 'comprehension element')
         et = type_of_value(v)
         return SList(it.len, z3.Lambda([i], to_z3(v, et)), et)
 
@@ -2358,12 +2389,7 @@ class Engine:
         i = z3.Int(fresh_name('sc_i'))
         s2 = st.fork()
         self.assign(g.target, from_z3(z3.Select(it.arr, i), it.et), s2)
-        was = getattr(self, 'in_spec', False)
-        self.in_spec = True
-        try:
-            v = self.ev(node.elt, s2)
-        finally:
-            self.in_spec = was
+        v = self._elementwise(lambda: self.ev(node.elt, s2), s2, i, it.len, 'set comprehension element')
         has = z3.Lambda([k], z3.Exists([i], z3.And(0 <= i, i < it.len, to_z3(v, 'U') == k)))
         st.assume(z3.And(size >= 0, size <= it.len))
         return SMap(has, z3.K(U, z3.BoolVal(True)), size, 'U', 'bool')
@@ -2466,12 +2492,7 @@ class Engine:
                 s2 = st.fork()
                 elem = from_z3(z3.Select(m.val, q), m.vt) if (isinstance(it, tuple) and it[0] == 'mapvalues') else from_z3(q, m.kt)
                 self.assign(g.generators[0].target, elem, s2)
-                was = getattr(self, 'in_spec', False)
-                self.in_spec = True
-                try:
-                    body = self.truthy(self.ev(g.elt, s2))
-                finally:
-                    self.in_spec = was
+                body = self._elementwise(lambda: self.truthy(self.ev(g.elt, s2)), s2, None, None, 'all/any element')
                 rng = z3.Select(m.has, q)
                 return z3.ForAll([q], z3.Implies(rng, body)) if fname == 'all' else z3.Exists([q], z3.And(rng, body))
             if not isinstance(it, SList):
@@ -2481,12 +2502,7 @@ class Engine:
             i = z3.Int(fresh_name('gen_i'))
             s2 = st.fork()
             self.assign(g.generators[0].target, from_z3(z3.Select(it.arr, i), it.et), s2)
-            was = getattr(self, 'in_spec', False)
-            self.in_spec = True
-            try:
-                body = self.truthy(self.ev(g.elt, s2))
-            finally:
-                self.in_spec = was
+            body = self._elementwise(lambda: self.truthy(self.ev(g.elt, s2)), s2, i, it.len, 'all/any element')
             rng = z3.And(i >= 0, i < it.len)
             return z3.ForAll([i], z3.Implies(rng, body)) if fname == 'all' else z3.Exists([i], z3.And(rng, body))
         if fname == 'bit' and len(node.args) == 2:
